@@ -347,7 +347,7 @@ fn judge_sequence(a: &mut Acc, order: u64, id: String, events: &[Ev], with_sdk: 
 
 pub fn run(ctx: &Ctx) -> (Acc, Report) {
     let mut acc = ctx.acc();
-    let max_len = ctx.tier.pick(4, 6);
+    let max_len = ctx.tier.pick(5, 7);
     let alphabet: Vec<Ev> = vec![
         Ev::Records(b"1,2\n".to_vec()),
         Ev::Stats(Some((1, 2, 3))),
